@@ -221,6 +221,16 @@ class Check:
         m = re.search(r"^%s\s*=\s*(.*?)\n\s*:\s" % re.escape(name), out, re.S | re.M)
         return None if m is None else re.sub(r"\s+", " ", m.group(1)).strip()
 
+    def coqchk(self, modules, timeout=3600):
+        """Thorough tier: re-check compiled .vo files (and everything they depend on) with the independent
+        checker; -o prints the axioms relied upon. modules e.g. ["Verif.Props.C20"]. Returns (ok, summary)."""
+        with Lock("coq"):
+            rc, out = sh(["coqchk", "-silent", "-o", "-R", ".", "Verif"] + modules, cwd=COQ, timeout=timeout)
+        m = re.search(r"CONTEXT SUMMARY(.*)", out, re.S)
+        summary = re.sub(r"\s+", " ", m.group(1)).strip()[:1500] if m else out[-800:]
+        self.assumptions_out.append("coqchk -o %s: rc=%d %s" % (" ".join(modules), rc, summary))
+        return rc == 0, out
+
     def forbidden_vernac(self):
         """No Axiom/Admitted/... anywhere in the development (re-checked on every run)."""
         rc, out = sh(["bash", os.path.join(VERIF, "tools", "forbidden.sh")], cwd=VERIF, timeout=60)
